@@ -347,6 +347,12 @@ func (w *World) judgeQuery(r *Replica, path string, data []byte, h int64, res *a
 			bad("error code %d", res.Code)
 			return
 		}
+		if w.adoptGov && h >= w.M.H {
+			// several options reached the threshold in the block just applied and the statement does not say
+			// which one wins: the model takes over the node's choice in the committed-state check of that
+			// block, which runs after the followers (and the queries they serve meanwhile)
+			return
+		}
 		var doc map[string]interface{}
 		if json.Unmarshal(res.Value, &doc) != nil {
 			bad("undecodable")
